@@ -136,7 +136,13 @@ def _typing(sym, env):
     hi = sym.int('meta_hi', 0, 15)               # metadata bits 4..7: extended, (core), read-only, (group marker)
     sym.assume(hi % 2 == 0)                      # not extended here (extended-type fetch: harness exttype)
     ro = bool((hi // 4) % 2 == 1)
-    value = sym.int('value', -(1 << 70), 1 << 70) if valkind == 'int' else sym.f64('value')
+    pool = sym.B.get('value_pool')
+    if pool:
+        # boundary values made concrete by forking (solver-chosen among the pool): exercises conversions that a symbolic value
+        # keeps opaque, e.g. a detour through float that rounds 64-bit values above 2^53
+        value = pool[sym.choice('value_idx', len(pool))]
+    else:
+        value = sym.int('value', -(1 << 70), 1 << 70) if valkind == 'int' else sym.f64('value')
     sym.apply_known()
 
     tail = lambda g, n: (g + '\0' + n + '\0').encode('ISO-8859-1')      # noqa: E731
@@ -328,6 +334,14 @@ HARNESSES = [
     Harness(f'typing[{_NAMES[c]}]', h_typing, quick=dict(code=c), goals=('read', 'written', 'notified', 'refused-ro') +
             (('refused-range',) if c == 0x06 else ()), timeout=(300, 900), smt_timeout=1.5)
     for c in (0x06, 0x07)
+] + [
+    Harness(f'typing[{_NAMES[c]},boundary values]', h_typing,
+            quick=dict(code=c, value_pool=[0, 1, -1, 255, 256, 65535, 65536, (1 << 31) - 1, 1 << 31, (1 << 32) - 1, 1 << 32, (1 << 53) + 1,
+                                           (1 << 62) + 1, (1 << 63) - 1, 1 << 63, (1 << 64) - 1, 1 << 64, -(1 << 31), -(1 << 31) - 1,
+                                           -(1 << 63), -(1 << 63) - 1, -(1 << 53) - 1]),
+            goals=('written', 'refused-range'), timeout=(300, 900), symbolic=False,
+            note='set value forked over boundary constants; idents, metadata and device values stay symbolic')
+    for c in (0x0B, 0x03, 0x0A, 0x02)
 ] + [
     Harness('refuse[unknown name]', h_refuse, quick=dict(which='name'), goals=('refused',)),
     Harness('refuse[fp16]', h_refuse, quick=dict(which='fp16', value='float'), goals=('refused',)),
